@@ -525,9 +525,31 @@ func ruleR25(c *Ctx) *RuleResult {
 					newPrev[noEpoch(ef.Args[0].Args[0])] = noEpoch(ef.Args[1])
 				}
 			}
+			// reading a link field of a fresh element back gives what this path stored there (`n.prev = e.prev; n.prev.next = n`)
+			fresh := map[string]*Term{}
+			dup := map[string]bool{}
+			for _, ef := range g.Effects {
+				if (storeToField(ef, "prev") || storeToField(ef, "next")) && ef.Args[0].Args[0].Op == "new" {
+					k := "(load " + noEpoch(ef.Args[0]) + ")"
+					if _, seen := fresh[k]; seen {
+						dup[k] = true
+					}
+					fresh[k] = ef.Args[1]
+				}
+			}
+			rb := func(t *Term) string {
+				return noEpoch(rewriteTerm(t, func(x *Term) *Term {
+					if x.Op == "load" {
+						if v, ok := fresh[noEpoch(x)]; ok && !dup[noEpoch(x)] {
+							return v
+						}
+					}
+					return nil
+				}))
+			}
 			has := func(field string, obj, val *Term) bool {
 				for _, ef := range g.Effects {
-					if storeToField(ef, field) && noEpoch(ef.Args[0].Args[0]) == noEpoch(obj) && noEpoch(ef.Args[1]) == noEpoch(val) {
+					if storeToField(ef, field) && rb(ef.Args[0].Args[0]) == rb(obj) && rb(ef.Args[1]) == rb(val) {
 						return true
 					}
 				}
@@ -552,8 +574,8 @@ func ruleR25(c *Ctx) *RuleResult {
 				switch {
 				case storeToField(ef, "next"):
 					x, y := ef.Args[0].Args[0], ef.Args[1]
-					if knownNil(g, y) || x.Op == "new" && y.String() == "#:nil" {
-						continue
+					if knownNil(g, y) || x.Op == "new" && y.String() == "#:nil" || knownNil(g, nodeL("load", "", nodeL("fa", "next", x))) {
+						continue // (the last form: the path read the field back and found nil)
 					}
 					n++
 					if !has("prev", y, x) {
@@ -561,7 +583,7 @@ func ruleR25(c *Ctx) *RuleResult {
 					}
 				case storeToField(ef, "prev"):
 					y, x := ef.Args[0].Args[0], ef.Args[1]
-					if knownNil(g, x) {
+					if knownNil(g, x) || knownNil(g, nodeL("load", "", nodeL("fa", "prev", y))) {
 						continue
 					}
 					n++
